@@ -254,7 +254,12 @@ impl<W: tokio::io::AsyncSeek + Unpin> tokio::io::AsyncSeek for ProgressBarIter<W
     }
 
     fn poll_complete(mut self: Pin<&mut Self>, cx: &mut Context<'_>) -> Poll<io::Result<u64>> {
-        Pin::new(&mut self.it).poll_complete(cx)
+        // Like the blocking `Seek` impl: the bar follows the stream to its new offset
+        let result = Pin::new(&mut self.it).poll_complete(cx);
+        if let Poll::Ready(Ok(pos)) = &result {
+            self.progress.set_position(*pos);
+        }
+        result
     }
 }
 
